@@ -91,6 +91,41 @@ def load_known():
     return out
 
 
+def thorough_passes(ctx, module):
+    """The thorough tier re-decides the property on everything else the build compiles and with deeper abstract domains:
+      [bin-copy]  the CLI binary compiles its OWN copy of rules::/commands::/utils:: (guard/src/main.rs declares the modules again), and
+                  that copy — not the library's — is what `cfn-guard` executes; rules that read `ctx.lib` are run again on it
+      [cap=3]     loop counters of the abstract interpreter saturate one step later (3 instead of 2), so every counter-guarded
+                  branch is explored for one more iteration before widening
+    Obligation keys of the extra passes carry the pass name as a prefix; a known finding matches with the prefix removed."""
+    from . import ai as AIM
+    views = getattr(module, "THOROUGH_VIEWS", ("bin-copy", "cap=3"))
+    base_obs = ctx.obs
+    for view in views:
+        sub = Ctx.__new__(Ctx)
+        sub.__dict__.update(ctx.__dict__)
+        sub.obs = []
+        sub.analysed = {}
+        sub.assumptions = []
+        old_cap = AIM.CAP
+        try:
+            if view == "bin-copy":
+                sub.lib = ctx.bin
+            elif view.startswith("cap="):
+                AIM.CAP = int(view[4:])
+            module.run(sub)
+        finally:
+            AIM.CAP = old_cap
+        for o in sub.obs:
+            o.key = "[%s] %s" % (view, o.key)
+            if o.sample is not None:
+                o.sample = None
+        base_obs.extend(sub.obs)
+        ctx.states, ctx.transitions = sub.states, sub.transitions
+        ctx.note_analysed("thorough_passes", "%s: %d obligations re-decided" % (view, len(sub.obs)))
+    ctx.obs = base_obs
+
+
 def run_check(prop, tier, module, level, explanation, checker_cmd):
     t0 = time.time()
     seed = int(os.environ.get("VERIF_SEED", "0") or 0)
@@ -100,6 +135,8 @@ def run_check(prop, tier, module, level, explanation, checker_cmd):
     try:
         ctx = Ctx(tier)
         module.run(ctx)
+        if tier == "thorough":
+            thorough_passes(ctx, module)
     except SystemExit:
         raise
     except Exception:
@@ -112,7 +149,7 @@ def run_check(prop, tier, module, level, explanation, checker_cmd):
     for o in ctx.obs:
         if o.ok:
             continue
-        if (prop, o.key) in known:
+        if (prop, o.key) in known or (prop, re.sub(r"^\[[a-z0-9=-]+\] ", "", o.key)) in known:
             known_hits.append(o)
         else:
             violations.append(o)
@@ -162,7 +199,7 @@ def run_check(prop, tier, module, level, explanation, checker_cmd):
     with open(evid_path, "w") as fh:
         json.dump(ev, fh, indent=1)
     for o in known_hits:
-        print("KNOWN-FINDING: property=%s %s %s" % (prop, o.key, known[(prop, o.key)]))
+        print("KNOWN-FINDING: property=%s %s %s" % (prop, o.key, known.get((prop, o.key)) or known[(prop, re.sub(r"^\[[a-z0-9=-]+\] ", "", o.key))]))
     print("%s tier=%s: %d obligations, %d discharged, %d known findings, %d violations (%.1fs)" % (
         prop, tier, n_ob, n_ok, len(known_hits), len(violations), time.time() - t0))
     for r, c in sorted(rules.items()):
